@@ -1,70 +1,272 @@
 #!/usr/bin/env python3
-"""Regenerate lean/LdkModel/Generated/ChainSyncConsts.lean from /repo's lightning-block-sync (C20).
+"""Regenerate lean/LdkModel/Generated/{ChainSyncConsts,ChainSync}.lean from /repo's lightning-block-sync (C20).
 
-* `MAX_BLOCKS_AT_ONCE` of init.rs::synchronize_listeners (the `#[cfg(not(test))]` value; the
-  expression is evaluated, not copied);
-* shape anchors: the decisive comparisons the hand-written model Model/ChainSync.lean mirrors must
-  still be present verbatim in the Rust text; if one is gone the source was restructured and the
-  translator fails loudly (TRANSLATE-ERROR, exit 2) so that the model gets re-validated.
+Generated/ChainSync.lean holds the DECISION EXPRESSIONS of lib.rs / poll.rs / init.rs, translated with
+tools/rs2lean.py from the Rust text on every run; Model/ChainSync.lean CALLS them (it has no comparison of
+its own), so a changed comparison changes the model and the theorems of Props/C20.lean are re-checked
+against it:
+
+  poll.rs   poll_chain_tip           Common test, Better test (chainwork)
+            check_builds_on          prev-hash, height+1, chainwork arithmetic, and the Network::Bitcoin arm
+                                     (retarget height, 4x transition window, equal bits) — whole body, in order
+            look_up_previous_header  genesis test
+            Validate for BlockHeaderData / BlockData   PoW first, then `hash != requested`, then (full block
+                                     only) merkle root and witness commitment — both bodies, in order
+  lib.rs    find_difference_from_header   loop exit and the two walk conditions (whole loop body pinned)
+            synchronize_listener     disconnect test;  update_chain_tip  partial-advance guard
+            HeaderCache              block_connected / insert_during_diff cutoff + retain, blocks_disconnected retain
+            find_difference_from_best_block   locator height_diff index and the checked_sub
+  init.rs   synchronize_listeners    disconnect test, longest-list test, per-listener delivery test,
+                                     MAX_BLOCKS_AT_ONCE (evaluated) and the truncate that consumes a batch
+
+What is NOT an expression (statement order: fetch-then-notify-then-cache, `?` positions, drain(..).rev()) stays
+pinned as text (ANCHORS) and is tied by the differential run.  Exit 2 with TRANSLATE-ERROR when a shape changed.
 """
 import re, sys, os
-REPO = os.environ.get('VERIF_REPO', '/repo')
-OUT = os.path.join(os.path.dirname(os.path.abspath(__file__)), '..', 'lean', 'LdkModel', 'Generated', 'ChainSyncConsts.lean')
+sys.path.insert(0, os.path.dirname(os.path.abspath(__file__)))
+from rs2lean import parse_expr, Emitter, TranslateError, strip_comments, find_fn
 
+REPO = os.environ.get('VERIF_REPO', '/repo')
+GEN = os.path.join(os.path.dirname(os.path.abspath(__file__)), '..', 'lean', 'LdkModel', 'Generated')
+
+# statement-order anchors (not expressions): still pinned as text
 ANCHORS = [
-    ('lightning-block-sync/src/poll.rs', r'if\s+chain_tip\.chainwork\s*>\s*best_known_chain_tip\.chainwork\s*\{\s*Ok\(ChainTip::Better\(chain_tip\)\)\s*\}\s*else\s*\{\s*Ok\(ChainTip::Worse\(chain_tip\)\)', 'poll_chain_tip: Better iff strictly more chainwork'),
-    ('lightning-block-sync/src/poll.rs', r'if\s+block_hash\s*==\s*best_known_chain_tip\.header\.block_hash\(\)\s*\{\s*return\s+Ok\(ChainTip::Common\)', 'poll_chain_tip: Common iff same hash'),
-    ('lightning-block-sync/src/poll.rs', r'if\s+self\.height\s*!=\s*previous_header\.height\s*\+\s*1', 'check_builds_on: height'),
-    ('lightning-block-sync/src/poll.rs', r'if\s+self\.chainwork\s*!=\s*previous_header\.chainwork\s*\+\s*work', 'check_builds_on: chainwork'),
-    ('lightning-block-sync/src/poll.rs', r'if\s+header\.height\s*==\s*0\s*\{\s*return\s+Err\(BlockSourceError::persistent\("genesis block reached"\)\)', 'look_up_previous_header: genesis'),
-    ('lightning-block-sync/src/lib.rs', r'if\s+current_height\s*<=\s*previous_height\s*\{\s*previous\s*=\s*self\.look_up_previous_header\(chain_poller,\s*&previous\)\.await\?;\s*\}\s*if\s+current_height\s*>=\s*previous_height\s*\{\s*connected_blocks\.push\(current\);\s*current\s*=\s*self\.look_up_previous_header\(chain_poller,\s*&current\)\.await\?;', 'find_difference_from_header: walk order'),
-    ('lightning-block-sync/src/lib.rs', r'if\s+difference\.common_ancestor\s*!=\s*\*old_header\s*\{\s*self\.disconnect_blocks\(difference\.common_ancestor\);', 'synchronize_listener: disconnect iff common ancestor differs'),
+    ('lightning-block-sync/src/poll.rs', r'let\s+chain_tip\s*=\s*self\.block_source\.get_header\(&block_hash,\s*height\)\.await\?\.validate\(block_hash\)\?;', 'poll_chain_tip: the tip header is fetched and validated against the best-block hash'),
+    ('lightning-block-sync/src/poll.rs', r'\.get_header\(previous_hash,\s*Some\(height\)\)\s*\.await\?\s*\.validate\(\*previous_hash\)\?;\s*header\.check_builds_on\(&previous_header,\s*self\.network\)\?;', 'look_up_previous_header: validate against prev_blockhash, then check_builds_on'),
+    ('lightning-block-sync/src/poll.rs', r'async move \{ self\.block_source\.get_block\(&header\.block_hash\)\.await\?\.validate\(header\.block_hash\) \}', 'fetch_block: validate against the header hash'),
     ('lightning-block-sync/src/lib.rs', r'for\s+header\s+in\s+connected_blocks\.drain\(\.\.\)\.rev\(\)', 'connect_blocks: oldest first'),
     ('lightning-block-sync/src/lib.rs', r'\.map_err\(\|e\|\s*\(e,\s*Some\(new_tip\)\)\)\?', 'connect_blocks: fetch error reports new_tip'),
-    ('lightning-block-sync/src/lib.rs', r'Err\(\(_,\s*Some\(chain_tip\)\)\)\s*if\s+chain_tip\.block_hash\s*!=\s*self\.chain_tip\.block_hash\s*=>\s*\{\s*self\.chain_tip\s*=\s*chain_tip;\s*true', 'update_chain_tip: partial advance'),
-    ('lightning-block-sync/src/lib.rs', r'let\s+cutoff_height\s*=\s*block_header\.height\.saturating_sub\(HEADER_CACHE_LIMIT\);\s*self\.headers\.retain\(\|_,\s*header\|\s*header\.height\s*>=\s*cutoff_height\)', 'HeaderCache::block_connected eviction'),
-    ('lightning-block-sync/src/lib.rs', r'self\.headers\.retain\(\|_,\s*block_info\|\s*block_info\.height\s*<=\s*fork_point\.height\)', 'HeaderCache::blocks_disconnected'),
-    ('lightning-block-sync/src/init.rs', r'if\s+difference\.common_ancestor\.block_hash\s*!=\s*old_best_block\.block_hash\s*\{\s*chain_notifier\.disconnect_blocks\(difference\.common_ancestor\);', 'synchronize_listeners: disconnect iff common ancestor differs from the locator hash'),
-    ('lightning-block-sync/src/init.rs', r'if\s+connected_blocks\.len\(\)\s*>\s*most_connected_blocks\.len\(\)', 'synchronize_listeners: longest connected list'),
-    ('lightning-block-sync/src/init.rs', r'if\s+\*height\s*>\s*\*listener_height', 'synchronize_listeners: per-listener filter'),
+    ('lightning-block-sync/src/lib.rs', r'self\.header_cache\.block_connected\(header\.block_hash,\s*header\);\s*new_tip\s*=\s*header;', 'connect_blocks: cache and advance after notifying'),
+    ('lightning-block-sync/src/lib.rs', r'match\s+self\.header_cache\.look_up\(&header\.header\.prev_blockhash\)\s*\{\s*Some\(prev_header\)\s*=>\s*Ok\(\*prev_header\),\s*None\s*=>\s*chain_poller\.look_up_previous_header\(header\)\.await,', 'ChainNotifier::look_up_previous_header: cache first'),
+    ('lightning-block-sync/src/lib.rs', r'Ok\(_\)\s*=>\s*\{\s*self\.chain_tip\s*=\s*best_chain_tip;\s*true\s*\},', 'update_chain_tip: Ok arm'),
+    ('lightning-block-sync/src/lib.rs', r'ChainTip::Common\s*=>\s*false,\s*ChainTip::Better\(chain_tip\)\s*=>\s*\{.*?self\.update_chain_tip\(chain_tip\)\.await\s*\},\s*ChainTip::Worse\(chain_tip\)\s*=>\s*\{.*?false\s*\},', 'poll_best_tip: only Better updates'),
+    ('lightning-block-sync/src/init.rs', r'for\s+header\s+in\s+most_connected_blocks\.iter\(\)\.rev\(\)\.take\(MAX_BLOCKS_AT_ONCE\)', 'synchronize_listeners: batch = oldest MAX_BLOCKS_AT_ONCE'),
+    ('lightning-block-sync/src/init.rs', r'let\s+block\s*=\s*block_res\?;\s*header_cache\.block_connected\(header\.block_hash,\s*\*header\);', 'synchronize_listeners: a failed fetch returns before the batch is delivered'),
 ]
 
+class Bad(Exception): pass
 def fail(msg):
     print('TRANSLATE-ERROR gen_chainsync.py: ' + msg)
     sys.exit(2)
+def norm(s): return ' '.join(s.split())
 
-def strip_comments(s):
-    s = re.sub(r'/\*.*?\*/', '', s, flags=re.S)
-    return re.sub(r'//[^\n]*', '', s)
+# Rust field paths of ValidatedBlockHeader / BlockHeaderData -> fields of the Lean `Hdr`
+RENAMES = [
+    (r'\.header\.block_hash\(\)', '.hash'), (r'\.header\.prev_blockhash', '.parent'), (r'\.header\.bits', '.bits'),
+    (r'\.block_hash\b', '.hash'), (r'\.chainwork\b', '.work'), (r'\bself\.', 'self_.'), (r'\*self\b', 'self_'),
+]
+def tr(expr, extra=(), methods=None):
+    e = expr
+    for a, b in list(extra) + RENAMES: e = re.sub(a, b, e)
+    try:
+        return Emitter(narrow=lambda t: False, methods=methods or {}).e(parse_expr(e))
+    except TranslateError as ex:
+        raise Bad('cannot translate `%s`: %s' % (expr, ex))
+
+def body_of(src, fn, after=None):
+    try:
+        _, _, b = find_fn(src, fn, after=after)
+    except (TranslateError, ValueError) as ex:
+        raise Bad('fn %s not found (%s)' % (fn, ex))
+    return norm(strip_comments(b))
+
+def must(pat, text, what):
+    m = re.fullmatch(pat, text, re.S) if pat.startswith('^FULL:') is False and False else None
+    return m
+
+def full(pat, text, what):
+    m = re.fullmatch(pat, text, re.S)
+    if not m: raise Bad('%s: the body no longer has the expected shape' % what)
+    return m
+def one(pat, text, what):
+    ms = re.findall(pat, text, re.S)
+    if len(ms) != 1: raise Bad('%s: expected exactly one occurrence, found %d' % (what, len(ms)))
+    return ms[0]
+
+ERR = r'return Err\(BlockSourceError::persistent\("([^"]*)"\)\);'
+
+def gen(srcs):
+    poll, lib, init = (srcs['lightning-block-sync/src/' + f] for f in ('poll.rs', 'lib.rs', 'init.rs'))
+    D = []   # (doc, lean definition)
+    def d(doc, text): D.append('/-- %s -/\n%s\n' % (doc, text))
+
+    # ---- poll.rs poll_chain_tip ----------------------------------------------------------------
+    k = poll.index('for ChainPoller<B, T>')
+    b = body_of(poll, 'poll_chain_tip', after='for ChainPoller<B, T>')
+    m = full(r'\{ async move \{ let \(block_hash, height\) = self\.block_source\.get_best_block\(\)\.await\?; if (.+?) \{ return Ok\(ChainTip::Common\); \} '
+             r'let chain_tip = self\.block_source\.get_header\(&block_hash, height\)\.await\?\.validate\(block_hash\)\?; '
+             r'if (.+?) \{ Ok\(ChainTip::Better\(chain_tip\)\) \} else \{ Ok\(ChainTip::Worse\(chain_tip\)\) \} \} \}', b, 'poll_chain_tip')
+    d('poll.rs poll_chain_tip: `if %s { return Ok(ChainTip::Common) }`' % m.group(1),
+      'def tipIsCommon (block_hash : Nat) (best_known_chain_tip : Hdr) : Bool :=\n  ' + tr(m.group(1)))
+    d('poll.rs poll_chain_tip: `if %s { Better } else { Worse }`' % m.group(2),
+      'def tipIsBetter (chain_tip best_known_chain_tip : Hdr) : Bool :=\n  ' + tr(m.group(2)))
+
+    # ---- poll.rs check_builds_on ----------------------------------------------------------------
+    b = body_of(poll, 'check_builds_on')
+    m = full(r'\{ if (.+?) \{ ' + ERR + r' \} if (.+?) \{ ' + ERR + r' \} let work = self\.header\.work\(\); if (.+?) \{ ' + ERR + r' \} '
+             r'if let Network::Bitcoin = network \{ if (.+?) \{ let target = self\.header\.target\(\); let previous_target = previous_header\.header\.target\(\); '
+             r'let min_target = previous_target\.min_transition_threshold\(\); let max_target = previous_target\.max_transition_threshold_unchecked\(\); '
+             r'if (.+?) \{ ' + ERR + r' \} \} else if (.+?) \{ ' + ERR + r' \} \} Ok\(\(\)\) \}', b, 'check_builds_on')
+    c1, e1, c2, e2, c3, e3, c4, c5, e5, c6, e6 = m.groups()
+    d('poll.rs check_builds_on: `if %s` ⇒ "%s"' % (c1, e1), 'def buildsOnBadPrevHash (self_ previous_header : Hdr) : Bool :=\n  ' + tr(c1))
+    d('poll.rs check_builds_on: `if %s` ⇒ "%s"' % (c2, e2), 'def buildsOnBadHeight (self_ previous_header : Hdr) : Bool :=\n  ' + tr(c2))
+    d('poll.rs check_builds_on: `let work = self.header.work(); if %s` ⇒ "%s"' % (c3, e3),
+      'def buildsOnBadChainwork (self_ previous_header : Hdr) (work : Nat) : Bool :=\n  ' + tr(c3))
+    d('poll.rs check_builds_on (Network::Bitcoin): `if %s` — a retarget height' % c4, 'def isRetargetHeight (self_ : Hdr) : Bool :=\n  ' + tr(c4))
+    d('poll.rs check_builds_on (Network::Bitcoin, retarget height): `if %s` ⇒ "%s"' % (c5, e5),
+      'def badTransition (target min_target max_target : Nat) : Bool :=\n  ' + tr(c5))
+    d('poll.rs check_builds_on (Network::Bitcoin, other heights): `if %s` ⇒ "%s"' % (c6, e6),
+      'def badDifficulty (self_ previous_header : Hdr) : Bool :=\n  ' + tr(c6))
+    d('poll.rs ValidatedBlockHeader::check_builds_on, assembled in source order (`bitcoin` = `network` is Network::Bitcoin; `target`s '
+      'through the hand-mirrored rust-bitcoin `targetOf` / transition thresholds). `none` = Ok(())',
+      'def checkBuildsOnErr (bitcoin : Bool) (self_ previous_header : Hdr) : Option String :=\n'
+      '  if buildsOnBadPrevHash self_ previous_header then some "%s"\n'
+      '  else if buildsOnBadHeight self_ previous_header then some "%s"\n'
+      '  else if buildsOnBadChainwork self_ previous_header self_.bwork then some "%s"\n'
+      '  else if bitcoin then\n'
+      '    (if isRetargetHeight self_ then\n'
+      '      (if badTransition (targetOf self_.bits) (minTransitionThreshold (targetOf previous_header.bits))\n'
+      '            (maxTransitionThresholdUnchecked (targetOf previous_header.bits)) then some "%s" else none)\n'
+      '    else if badDifficulty self_ previous_header then some "%s" else none)\n'
+      '  else none' % (e1, e2, e3, e5, e6))
+
+    # ---- poll.rs look_up_previous_header ----------------------------------------------------------
+    b = body_of(poll, 'look_up_previous_header', after='for ChainPoller<B, T>')
+    m = full(r'\{ async move \{ if (.+?) \{ ' + ERR + r' \} let previous_hash = &header\.header\.prev_blockhash; let height = header\.height - 1; '
+             r'let previous_header = self \.block_source \.get_header\(previous_hash, Some\(height\)\) \.await\? \.validate\(\*previous_hash\)\?; '
+             r'header\.check_builds_on\(&previous_header, self\.network\)\?; Ok\(previous_header\) \} \}', b, 'ChainPoller::look_up_previous_header')
+    d('poll.rs ChainPoller::look_up_previous_header: `if %s` ⇒ "%s"' % (m.group(1), m.group(2)), 'def isGenesisHeader (header : Hdr) : Bool :=\n  ' + tr(m.group(1)))
+
+    # ---- poll.rs Validate impls -------------------------------------------------------------------
+    vh = body_of(poll, 'validate', after='impl Validate for BlockHeaderData')
+    m = full(r'\{ let pow_valid_block_hash = self\.header\.validate_pow\(self\.header\.target\(\)\)\.map_err\(BlockSourceError::persistent\)\?; '
+             r'if (.+?) \{ ' + ERR + r' \} Ok\(ValidatedBlockHeader \{ block_hash, inner: self \}\) \}', vh, 'Validate for BlockHeaderData')
+    hc = m.group(1)
+    vb = body_of(poll, 'validate', after='impl Validate for BlockData')
+    m2 = full(r'\{ let header = match &self \{ BlockData::FullBlock\(block\) => &block\.header, BlockData::HeaderOnly\(header\) => header, \}; '
+              r'let pow_valid_block_hash = header\.validate_pow\(header\.target\(\)\)\.map_err\(BlockSourceError::persistent\)\?; '
+              r'if (.+?) \{ ' + ERR + r' \} if let BlockData::FullBlock\(block\) = &self \{ if (.+?) \{ ' + ERR + r' \} if (.+?) \{ ' + ERR + r' \} \} '
+              r'Ok\(ValidatedBlock \{ block_hash, inner: self \}\) \}', vb, 'Validate for BlockData')
+    bc, _, mk, _, wc, _ = m2.groups()
+    noren = [(r'\bblock_hash\b', 'requested_hash')]
+    d('poll.rs `impl Validate for BlockHeaderData`: after the PoW check, `if %s` ⇒ "invalid block hash"' % hc,
+      'def headerHashBad (pow_valid_block_hash requested_hash : Nat) : Bool :=\n  ' + tr(hc, noren))
+    d('poll.rs `impl Validate for BlockData`: after the PoW check, `if %s` ⇒ "invalid block hash" (both arms: full block and header-only)' % bc,
+      'def blockHashBad (pow_valid_block_hash requested_hash : Nat) : Bool :=\n  ' + tr(bc, noren))
+    meth = {'check_merkle_root': lambda r, a: 'raw.merkleOk', 'check_witness_commitment': lambda r, a: 'raw.witnessOk'}
+    d('poll.rs `impl Validate for BlockData`, FullBlock only: `if %s` ⇒ "invalid merkle root"' % mk, 'def blockMerkleBad (raw : RawBlk) : Bool :=\n  ' + tr(mk, methods=meth))
+    d('poll.rs `impl Validate for BlockData`, FullBlock only: `if %s` ⇒ "invalid witness commitment"' % wc, 'def blockWitnessBad (raw : RawBlk) : Bool :=\n  ' + tr(wc, methods=meth))
+    d('`BlockHeaderData::validate(block_hash)`, assembled in source order: PoW (`validate_pow(..)?`), then the hash binding; the validated '
+      'header keeps the source\'s CLAIMED height and chainwork',
+      'def validateHeader (raw : RawHdr) (requested_hash : Nat) : Option Hdr :=\n'
+      '  if !raw.powOk then none else if headerHashBad raw.hash requested_hash then none else some raw.toHdr')
+    d('`BlockData::validate(block_hash)`, assembled in source order: PoW, hash binding, then for a FullBlock merkle root and witness commitment',
+      'def validateBlock (raw : RawBlk) (requested_hash : Nat) : Bool :=\n'
+      '  if !raw.powOk then false else if blockHashBad raw.hash requested_hash then false\n'
+      '  else if raw.full then (if blockMerkleBad raw then false else if blockWitnessBad raw then false else true) else true')
+
+    # ---- lib.rs find_difference_from_header --------------------------------------------------------
+    b = body_of(lib, 'find_difference_from_header')
+    m = full(r'\{ let mut connected_blocks = Vec::new\(\); let mut current = current_header; let mut previous = \*prev_header; loop \{ if (.+?) \{ break; \} '
+             r'let current_height = current\.height; let previous_height = previous\.height; if (.+?) \{ previous = self\.look_up_previous_header\(chain_poller, &previous\)\.await\?; \} '
+             r'if (.+?) \{ connected_blocks\.push\(current\); current = self\.look_up_previous_header\(chain_poller, &current\)\.await\?; \} \} '
+             r'let common_ancestor = current; Ok\(ChainDifference \{ common_ancestor, connected_blocks \}\) \}', b, 'find_difference_from_header')
+    d('lib.rs find_difference_from_header: `if %s { break }`' % m.group(1), 'def fdFound (current previous : Hdr) : Bool :=\n  ' + tr(m.group(1)))
+    d('lib.rs find_difference_from_header: `if %s` ⇒ walk `previous` back' % m.group(2), 'def fdWalkPrevious (current_height previous_height : Nat) : Bool :=\n  ' + tr(m.group(2)))
+    d('lib.rs find_difference_from_header: `if %s` ⇒ push `current` and walk it back' % m.group(3), 'def fdWalkCurrent (current_height previous_height : Nat) : Bool :=\n  ' + tr(m.group(3)))
+
+    # ---- lib.rs synchronize_listener / update_chain_tip ----------------------------------------------
+    b = body_of(lib, 'synchronize_listener')
+    c = one(r'if (difference\.common_ancestor [!=]= \*old_header) \{ self\.disconnect_blocks\(difference\.common_ancestor\); \} self\.connect_blocks\(', b, 'synchronize_listener: disconnect test')
+    d('lib.rs synchronize_listener: `if %s { disconnect_blocks(common_ancestor) }`' % c,
+      'def syncDisconnects (common_ancestor old_header : Hdr) : Bool :=\n  ' + tr(c, [(r'difference\.common_ancestor', 'common_ancestor')]))
+    b = body_of(lib, 'update_chain_tip')
+    c = one(r'Err\(\(_, Some\(chain_tip\)\)\) if (.+?) => \{ self\.chain_tip = chain_tip; true \},? Err\(_\) => false', b, 'update_chain_tip: partial-advance arm')
+    d('lib.rs update_chain_tip: `Err((_, Some(chain_tip))) if %s => { self.chain_tip = chain_tip; true }`' % c,
+      'def partialAdvance (chain_tip self_chain_tip : Hdr) : Bool :=\n  ' + tr(c, [(r'self\.chain_tip', 'self_chain_tip')]))
+
+    # ---- lib.rs HeaderCache ---------------------------------------------------------------------------
+    b = body_of(lib, 'block_connected', after='impl HeaderCache')
+    m = full(r'\{ self\.headers\.insert\(block_hash, block_header\); let cutoff_height = (.+?); self\.headers\.retain\(\|_, header\| (.+?)\); \}', b, 'HeaderCache::block_connected')
+    d('lib.rs HeaderCache::block_connected: `let cutoff_height = %s`' % m.group(1), 'def cacheCutoff (block_header : Hdr) : Nat :=\n  ' + tr(m.group(1)))
+    d('lib.rs HeaderCache::block_connected: `retain(|_, header| %s)`' % m.group(2), 'def cacheKeeps (header : Hdr) (cutoff_height : Nat) : Bool :=\n  ' + tr(m.group(2)))
+    b = body_of(lib, 'insert_during_diff')
+    m = full(r'\{ self\.headers\.insert\(block_hash, block_header\); let best_height = self\.headers\.iter\(\)\.map\(\|\(_, header\)\| header\.height\)\.max\(\)\.unwrap_or\((\d+)\); '
+             r'let cutoff_height = (.+?); self\.headers\.retain\(\|_, header\| (.+?)\); \}', b, 'HeaderCache::insert_during_diff')
+    d('lib.rs HeaderCache::insert_during_diff: `best_height = max of the cached heights, unwrap_or(%s)`; `let cutoff_height = %s`' % (m.group(1), m.group(2)),
+      'def diffCutoff (best_height : Nat) : Nat :=\n  ' + tr(m.group(2)) + '\ndef diffBestHeightDefault : Nat := ' + m.group(1))
+    d('lib.rs HeaderCache::insert_during_diff: `retain(|_, header| %s)`' % m.group(3), 'def diffKeeps (header : Hdr) (cutoff_height : Nat) : Bool :=\n  ' + tr(m.group(3)))
+    b = body_of(lib, 'blocks_disconnected', after='impl HeaderCache')
+    m = full(r'\{ if !self\.retain_on_disconnect \{ self\.headers\.retain\(\|_, block_info\| (.+?)\); \} \}', b, 'HeaderCache::blocks_disconnected')
+    d('lib.rs HeaderCache::blocks_disconnected: `if !self.retain_on_disconnect { retain(|_, block_info| %s) }`' % m.group(1),
+      'def disconnectKeeps (block_info fork_point : Hdr) : Bool :=\n  ' + tr(m.group(1)))
+
+    # ---- lib.rs find_difference_from_best_block (locator resolution) ------------------------------------
+    b = body_of(lib, 'find_difference_from_best_block')
+    c = one(r'if let Some\(block_hash\) = hash_opt \{ Some\(\((.+?), block_hash\)\) \} else \{ None \}', b, 'find_difference_from_best_block: previous_blocks index')
+    d('lib.rs find_difference_from_best_block: candidate `height_diff` of `previous_blocks[idx]`: `%s`' % c, 'def locatorHeightDiff (idx : Nat) : Nat :=\n  ' + tr(c))
+    if 'let cur_tip = core::iter::once((0, &prev_best_block.block_hash));' not in b or 'for (height_diff, block_hash) in cur_tip.chain(prev_tips)' not in b:
+        raise Bad('find_difference_from_best_block: candidate order changed')
+    c = one(r'let height = (prev_best_block\.height\.checked_sub\(height_diff\))\.ok_or\( BlockSourceError::persistent\( "BlockLocator had more previous_blocks than its height", \), \)\?;', b, 'find_difference_from_best_block: checked_sub')
+    d('lib.rs find_difference_from_best_block: `%s` (None ⇒ "BlockLocator had more previous_blocks than its height")' % c,
+      'def locatorHeight (prev_best_block_height height_diff : Nat) : Option Nat :=\n  ' + tr(c, [(r'prev_best_block\.height', 'prev_best_block_height')]))
+    if not re.search(r'if let Some\(header\) = self\.header_cache\.look_up\(block_hash\) \{ found_header = Some\(\*header\); break; \} let height = ', b) or \
+       not re.search(r'if let Ok\(header\) = chain_poller\.get_header\(block_hash, Some\(height\)\)\.await \{ found_header = Some\(header\); self\.header_cache\.insert_during_diff\(\*block_hash, header\); break; \}', b):
+        raise Bad('find_difference_from_best_block: resolution loop changed')
+
+    # ---- init.rs synchronize_listeners ---------------------------------------------------------------------
+    b = body_of(init, 'synchronize_listeners')
+    c = one(r'if (difference\.common_ancestor\.block_hash [!=]= old_best_block\.block_hash) \{ chain_notifier\.disconnect_blocks\(difference\.common_ancestor\); \}', b, 'synchronize_listeners: disconnect test')
+    d('init.rs synchronize_listeners: `if %s { disconnect_blocks(common_ancestor) }`' % c,
+      'def initDisconnects (common_ancestor : Hdr) (old_best_block_hash : Nat) : Bool :=\n  ' + tr(c, [(r'difference\.common_ancestor', 'common_ancestor'), (r'old_best_block\.block_hash', 'old_best_block_hash')]))
+    c = one(r'if (connected_blocks\.len\(\) [<>=]+ most_connected_blocks\.len\(\)) \{ most_connected_blocks = connected_blocks; \}', b, 'synchronize_listeners: longest list')
+    d('init.rs synchronize_listeners: `if %s { most_connected_blocks = connected_blocks }`' % c,
+      'def initTakesLonger (connected_blocks most_connected_blocks : List Hdr) : Bool :=\n  ' + tr(c))
+    c = one(r'for \(height, block_data\) in fetched_blocks\.iter\(\)\.flatten\(\) \{ if (.+?) \{ match', b, 'synchronize_listeners: per-listener filter')
+    d('init.rs synchronize_listeners: a fetched block is delivered to a listener `if %s` (listener_height = height of its common ancestor)' % c,
+      'def initDelivers (height listener_height : Nat) : Bool :=\n  ' + tr(c))
+    if 'chain_listeners_at_height.push((common_ancestor.height, chain_listener));' not in b: raise Bad('synchronize_listeners: listener height is no longer the common ancestor\'s height')
+    one(r'most_connected_blocks \.truncate\(most_connected_blocks\.len\(\)\.saturating_sub\(MAX_BLOCKS_AT_ONCE\)\); \}', b, 'synchronize_listeners: a batch consumes the oldest MAX_BLOCKS_AT_ONCE')
+    m = re.search(r'#\[cfg\(not\(test\)\)\] const MAX_BLOCKS_AT_ONCE: usize = ([0-9_ *+]+);', b)
+    if not m: raise Bad('init.rs: #[cfg(not(test))] const MAX_BLOCKS_AT_ONCE not found')
+    expr = m.group(1).replace('_', '').strip()
+    val = eval(expr, {'__builtins__': {}})
+    return D, expr, val
+
+def write(path, text):
+    path = os.path.normpath(path)
+    if not os.path.exists(path) or open(path).read() != text:
+        open(path, 'w').write(text); print('wrote', path)
+    else:
+        print('unchanged', path)
 
 def main():
     srcs = {}
+    for f in ('poll.rs', 'lib.rs', 'init.rs'):
+        p = os.path.join(REPO, 'lightning-block-sync/src', f)
+        if not os.path.exists(p): fail('missing ' + p)
+        srcs['lightning-block-sync/src/' + f] = open(p).read()
     for f, pat, what in ANCHORS:
-        if f not in srcs:
-            p = os.path.join(REPO, f)
-            if not os.path.exists(p): fail('missing ' + f)
-            srcs[f] = strip_comments(open(p).read())
-        if not re.search(pat, srcs[f], re.S):
+        if not re.search(pat, norm(strip_comments(srcs[f])), re.S):
             fail('%s: expected shape not found: %s' % (f, what))
-    init = srcs['lightning-block-sync/src/init.rs']
-    m = re.search(r'#\[cfg\(not\(test\)\)\]\s*const\s+MAX_BLOCKS_AT_ONCE\s*:\s*usize\s*=\s*([0-9_ *+]+);', init)
-    if not m: fail('init.rs: #[cfg(not(test))] const MAX_BLOCKS_AT_ONCE not found')
-    expr = m.group(1).replace('_', '').strip()
-    if not re.fullmatch(r'[0-9 *+]+', expr): fail('MAX_BLOCKS_AT_ONCE expression not understood: ' + expr)
-    val = eval(expr, {'__builtins__': {}})
-    text = ('/- GENERATED by tools/gen_chainsync.py from lightning-block-sync/src/init.rs — do not edit.  Regenerated on every check. -/\n'
-            'namespace Ldk.ChainSync\n\n'
-            '/-- init.rs synchronize_listeners: `#[cfg(not(test))] const MAX_BLOCKS_AT_ONCE: usize = %s` -/\n'
-            'def MAX_BLOCKS_AT_ONCE : Nat := %d\n\n'
-            '/-- shape anchors checked in the Rust text by the generator: %d -/\n'
-            'def shapeAnchorsChecked : Nat := %d\n\n'
-            'end Ldk.ChainSync\n') % (expr, val, len(ANCHORS), len(ANCHORS))
-    out = os.path.normpath(OUT)
-    if not os.path.exists(out) or open(out).read() != text:
-        open(out, 'w').write(text)
-        print('wrote', out)
-    else:
-        print('unchanged', out)
+    try:
+        D, expr, val = gen(srcs)
+    except Bad as ex:
+        fail(str(ex))
+    except ValueError as ex:
+        fail('anchor text not found: %s' % ex)
+    consts = ('/- GENERATED by tools/gen_chainsync.py from lightning-block-sync/src/init.rs — do not edit.  Regenerated on every check. -/\n'
+              'namespace Ldk.ChainSync\n\n'
+              '/-- init.rs synchronize_listeners: `#[cfg(not(test))] const MAX_BLOCKS_AT_ONCE: usize = %s` -/\n'
+              'def MAX_BLOCKS_AT_ONCE : Nat := %d\n\n'
+              '/-- statement-order anchors checked in the Rust text by the generator: %d; decision expressions translated: %d -/\n'
+              'def shapeAnchorsChecked : Nat := %d\n\n'
+              'end Ldk.ChainSync\n') % (expr, val, len(ANCHORS), len(D), len(ANCHORS))
+    write(os.path.join(GEN, 'ChainSyncConsts.lean'), consts)
+    text = ('/- GENERATED by tools/gen_chainsync.py from lightning-block-sync/src/{poll,lib,init}.rs — do not edit.\n'
+            '   Decision expressions translated by tools/rs2lean.py; Model/ChainSync.lean calls them. Regenerated on every check. -/\n'
+            'import LdkModel.Prim.Arith\nimport LdkModel.Generated.ChainSyncConsts\nimport LdkModel.Model.ChainSyncTypes\nnamespace Ldk.ChainSync\nopen Ldk\n\n' + '\n'.join(D) + '\nend Ldk.ChainSync\n')
+    write(os.path.join(GEN, 'ChainSync.lean'), text)
 
 if __name__ == '__main__':
     main()
